@@ -110,7 +110,10 @@ def rule_accept(ctx, py):
         def is_group(t):
             # a loop variable, or an element of the map
             t = t.strip()
-            return t in _loopvars(loops) or any(re.match(r"^%s\[.+\]$" % re.escape(k), t) for k in mapn)
+            valvars = _loopvars([lp for lp in loops if isinstance(lp, ast.For) and
+                                 any(pya.mentions(pyfe.src(lp.iter), k) for k in mapn) and
+                                 not (isinstance(lp.iter, ast.Call) and pyfe.call_name(lp.iter) == "range")])
+            return t in valvars or any(re.match(r"^%s\[.+\]$" % re.escape(k), t) for k in mapn)
         for a, pol in allf:
             if not isinstance(a, str):
                 continue
